@@ -493,6 +493,37 @@ theorem iterator_replayed_exception_is_the_raised_one (cfg : Iter.Cfg) (script :
   obtain ⟨rfl, hlen, pre, d, rest, hsteps, hpl, hpre⟩ := produced_exc_at n (script n).steps 0 j c p m hj1
   exact ⟨r, hn, hk, hrs, by rw [hprod]; exact hlen, hj2 (by rw [hprod]; exact hlen), pre, d, rest, hsteps, hpl, hpre⟩
 
+/-- **An item that is an exception object is replayed as an item.**  In every reachable state, when a call with key `k`
+is answered from the cache and the replay holds, at position `j`, the exception instance of class `c`, payload `p` and
+stamp `m` AS A VALUE, then `m` is a logged run with the same key whose step `j` *yields* exactly that object (it raises
+nothing there), the replay is that run's complete sequence - so everything the run yielded after it follows -, and the
+consumer of the replay is handed it like any other item (`Res.isExc` is false: the replay loop does not stop at it).
+Only what a run RAISED (stored as `RaiseException`) is raised by a replay. -/
+theorem iterator_replays_exception_objects_as_items (cfg : Iter.Cfg) (script : Nat → IBeh) (ops : List Iter.Op)
+    (k : Nat) (cs : Consumer) (rs : List Res)
+    (h : (Iter.step cfg script (afterI cfg script ops) (.iter k cs)).2 = .got rs true)
+    (j c p m : Nat) (hj : rs[j]? = some (.eobj c p m)) :
+    ∃ r, (afterI cfg script ops).runs[m]? = some r ∧ r.key = k ∧ rs = cs.view r.outs ∧
+      r.outs = produced m (script m).steps 0 ∧ r.outs[j]? = some (.eobj c p m) ∧
+      (∃ d, (script m).steps[j]? = some (.eobj c p, d)) ∧ (Res.eobj c p m).isExc = false ∧
+      ((∀ i, cs ≠ .take i) → rs.length = r.outs.length) := by
+  obtain ⟨n, r, hn, hk, _, hprod, _, hrs, hfull, _, _, _⟩ := iterator_replays_one_complete_run cfg script ops k cs rs h
+  have hj' : r.outs[j]? = some (.eobj c p m) := by
+    rw [hrs] at hj
+    cases cs with
+    | take i =>
+      simp only [Consumer.view] at hj
+      rw [List.getElem?_take] at hj
+      split at hj
+      · exact hj
+      · cases hj
+    | drain => exact hj
+    | cancel i => exact hj
+  have hj1 := hj'
+  rw [hprod] at hj1
+  obtain ⟨rfl, d, hd⟩ := produced_eobj_at n (script n).steps 0 j c p m hj1
+  exact ⟨r, hn, hk, hrs, hprod, hj', ⟨d, hd⟩, rfl, fun hnt => by rw [hfull hnt]⟩
+
 /-! ### Non-vacuity (iterator) -/
 
 /-- run 0: three items, the last one 4 ticks late; run 1: two items, `0` (falsy) first; run 2: `None` in the middle -/
@@ -557,6 +588,23 @@ example : ∃ r rs, (afterI ⟨.all, fun _ => 8⟩ threeItems [.iter 0 (.take 1)
     (Iter.step ⟨.all, fun _ => 8⟩ threeItems (afterI ⟨.all, fun _ => 8⟩ threeItems [.iter 0 (.take 1), .iter 0 .drain])
       (.iter 0 .drain)).2 = .got rs true :=
   ⟨⟨0, 0, [.val 0 0, .val 0 1], 0, .take 1, .abandoned⟩, [.val 1 0, .val 1 1, .val 1 2], by decide, rfl, by decide⟩
+
+/-- "whatever the items are": a run that yields an exception object (class 1, payload 2) between two payloads, a tuple /
+bytes constant (`falsy 5`) and `None` is replayed in full - the exception object is yielded, not raised; under
+`only_exceptions()` a run of exception objects alone is accepted (the condition hands each of them back) -/
+example : (Iter.run ⟨.all, fun _ => 8⟩ (fun _ => ⟨[(.val, 0), (.eobj 1 2, 0), (.falsy 5, 0), (.none, 0), (.val, 0)], 0⟩) Iter.St.init
+      [.iter 0 .drain, .iter 0 .drain]).2 =
+    [.got [.val 0 0, .eobj 1 2 0, .falsy 5, .none, .val 0 4] false, .got [.val 0 0, .eobj 1 2 0, .falsy 5, .none, .val 0 4] true] := by
+  decide
+example : (Iter.run ⟨.onlyExc [], fun _ => 8⟩ (fun n => if n = 0 then ⟨[(.eobj 1 2, 0), (.eobj 0 0, 0)], 0⟩ else ⟨[(.eobj 1 2, 0), (.val, 0)], 0⟩)
+      Iter.St.init [.iter 0 .drain, .iter 0 .drain, .iter 1 .drain, .iter 1 .drain]).2 =
+    [.got [.eobj 1 2 0, .eobj 0 0 0] false, .got [.eobj 1 2 0, .eobj 0 0 0] true,
+     .got [.eobj 1 2 1, .val 1 1] false, .got [.eobj 1 2 2, .val 2 1] false] := by decide
+
+/-- the hypotheses of `iterator_replays_exception_objects_as_items` are satisfiable -/
+example : ∃ rs, (Iter.step ⟨.all, fun _ => 8⟩ (fun _ => ⟨[(.val, 0), (.eobj 1 2, 0), (.val, 0)], 0⟩)
+      (afterI ⟨.all, fun _ => 8⟩ (fun _ => ⟨[(.val, 0), (.eobj 1 2, 0), (.val, 0)], 0⟩) [.iter 0 .drain]) (.iter 0 .drain)).2 = .got rs true ∧
+    rs[1]? = some (.eobj 1 2 0) := ⟨[.val 0 0, .eobj 1 2 0, .val 0 2], by decide, by decide⟩
 
 end iterator
 
